@@ -102,13 +102,17 @@ class C16(Prop):
             for k in names:
                 data[k][n1:] = [big if rng.random() < 0.7 else -big for _ in range(ext)]
         case = {'formula': f, 'data': data, 'n1': n1}
-        if rng.random() < 0.3:
+        sugar = 'unless' in lang.ops_of(f)             # expanded by the parser into two operators sharing the bounds
+        if rng.random() < (0.6 if sugar else 0.3):
             # a sampling period other than 1 s, bounds written in its unit; and possibly a neighbour: another
             # specification object with the same text and a finer period, evaluated first in the same process
             # (many different numbers: a process-wide memo keyed by the bound text is only wrong for the first user)
             case['period'] = [rng.choice([1, 1, 2, 3, 4, 5, 7, 8, 10, 20, 25, 40, 50, 100, 125, 200, 250, 400, 500]),
                               rng.choice(['s', 'ms', 'us'])]
             case['neighbour'] = rng.random() < 0.6
+            case['spell'] = rng.choice(['both', 'both', 'begin-only', 'end-only'] + (['begin-only', 'end-only'] if sugar else []))
+            if sugar and case['spell'] != 'both':
+                case['period'][1] = 'ms'     # (a mis-read unit then costs a factor 1000 in window length, not 10^6)
         return case
 
     def judge(self, case):
@@ -136,8 +140,11 @@ class C16(Prop):
             from fractions import Fraction as Fr
             from rtverif.props.c08 import U, dur_in
             p, pu = case['period']
-            text = lang.to_text(f, ivl_printer=lambda iv: '[%s%s:%s%s]' % (dur_in(iv[0] * p * U[pu], pu), pu,
-                                                                         dur_in(iv[1] * p * U[pu], pu), pu))
+            spell = case.get('spell', 'both')       # which bounds carry the unit suffix (a bare one takes the other's)
+            text = lang.to_text(f, ivl_printer=lambda iv: '[%s%s:%s%s]' % (
+                dur_in(iv[0] * p * U[pu], pu), pu if spell != 'end-only' else '',
+                dur_in(iv[1] * p * U[pu], pu), pu if spell != 'begin-only' else ''))
+            v.info['spelling:' + spell] = 1
             sd = {'period': (p, pu, 0.1)}
             times = [float(Fr(i * p * U[pu], U['s'])) for i in range(n2)]
             v.info['period-unit:%s' % pu] = 1
